@@ -138,6 +138,10 @@ class CCodeMapper(SimplifyingSortingStringifyMapper):
             elif is_zero(expr.exponent - 1):
                 return self.rec(expr.base, enclosing_prec)
             elif is_zero(expr.exponent - 2):
+                from pymbolic.mapper.stringifier import PREC_POWER, PREC_PRODUCT
+                if enclosing_prec >= PREC_PRODUCT:
+                    # in a product or quotient: x/(y*y), not x/y*y
+                    enclosing_prec = PREC_POWER
                 return self.rec(expr.base*expr.base, enclosing_prec)
 
         return self.format("pow(%s, %s)",
